@@ -220,6 +220,15 @@ static void emit_loc(Token *tok) {
     println("  .loc %d %d", tok->file->file_no, tok->line_no);
 }
 
+// cmpxchg compares and stores the object representation held in
+// general-purpose registers; a float or double value is in %xmm0.
+static void flonum_bits_to_rax(Type *ty) {
+  if (ty->kind == TY_FLOAT)
+    println("  movd %%xmm0, %%eax");
+  else if (ty->kind == TY_DOUBLE)
+    println("  movq %%xmm0, %%rax");
+}
+
 // Load a value from where %rax is pointing to.
 static void load(Type *ty) {
   switch (ty->kind) {
@@ -1139,10 +1148,12 @@ static void gen_expr(Node *node) {
     gen_expr(node->cas_addr);
     push();
     gen_expr(node->cas_new);
+    flonum_bits_to_rax(node->cas_new->ty);
     push();
     gen_expr(node->cas_old);
     println("  mov %%rax, %%r8");
     load(node->cas_old->ty->base);
+    flonum_bits_to_rax(node->cas_old->ty->base);
     pop("%rdx"); // new
     pop("%rdi"); // addr
 
